@@ -14,10 +14,16 @@ pairs by definition; lanes via C08; Periodic in `Props/C07`):
 * `C03_unique`       : any slopes whose piecewise cubic is C² at the interior knots and meets
                        the two end conditions are the computed ones; hence all values agree
                        (`C03_unique_values`).
+* `C03_periodic`       : Periodic boundary, `n ≥ 4` (the condensed two-solve system; its closing
+                       denominator is positive): the solver succeeds iff the first and last data
+                       values are equal (otherwise `ValueError`), and the slopes make the spline C² at
+                       every interior knot with `S'` and `S''` equal at the two ends. `C03_periodic3`:
+                       the 3-point closed form.
 * `C03_defect_witness` : the pre-repair right NotAKnot row (diagonal entry `x[n-1]-x[n-2]`) is
                        *not* the NotAKnot condition: concrete rational counterexample.
 -/
 import NdInterp.Lemmas.SplineChar
+import NdInterp.Lemmas.Periodic
 import Mathlib.Tactic.NormNum
 
 namespace NdInterp
@@ -108,6 +114,69 @@ theorem C03_parabola (xs ys : List F) (hs : StrictInc xs) (hy : ys.length = xs.l
     linear_combination r1
 
 end
+
+section periodic
+variable {F : Type} [Field F] [LinearOrder F] [IsStrictOrderedRing F] [Cmp F] [LawfulCmp F]
+
+/-- **C03_periodic** (`n ≥ 4`) -/
+theorem C03_periodic (xs ys : List F) (hs : StrictInc xs) (hy : ys.length = xs.length)
+    (hn : 4 ≤ xs.length) :
+    (ys[0]'(by omega) ≠ ys[xs.length - 1]'(by omega) →
+      solveForK (V := F) xs ys .periodic = .error (.builder .valueError)) ∧
+    (ys[0]'(by omega) = ys[xs.length - 1]'(by omega) →
+      ∃ ks, ∃ (hk : ks.length = xs.length),
+        solveForK (V := F) xs ys .periodic = .ok ks ∧ C2Cond xs ys ks hy hk ∧
+        -- equal first derivatives at the two ends
+        (pc xs ys ks hy hk (xs.length - 2) (xs.length - 1) (by omega) (by omega)).d1 xs[xs.length - 1] =
+          (pc xs ys ks hy hk 0 1 (by omega) (by omega)).d1 xs[0] ∧
+        -- equal second derivatives at the two ends
+        (pc xs ys ks hy hk (xs.length - 2) (xs.length - 1) (by omega) (by omega)).d2 xs[xs.length - 1] =
+          (pc xs ys ks hy hk 0 1 (by omega) (by omega)).d2 xs[0]) := by
+  have hne : ∀ i j (hij : i < j) (hj : j < xs.length), xs[j] - xs[i]'(by omega) ≠ 0 :=
+    fun i j hij hj => ne_of_gt (sub_pos.mpr (hs.2 i j hij hj))
+  have hg : (3 ≤ ys.length ∧ xs.length = ys.length) := ⟨by omega, hy.symm⟩
+  have hsolve : solveForK (V := F) xs ys .periodic =
+      if ys[0]'(by omega) = ys[xs.length - 1]'(by omega) then
+        periodicN xs ys (endsOf xs ys hy (by omega)) (xs[xs.length - 4])
+      else .error (.builder .valueError) := by
+    unfold solveForK
+    simp only [bind, Except.bind, pure, Except.pure]
+    rw [if_neg (not_not.mpr hg)]
+    simp only [getEnds_eq' xs ys hy (by omega), InternalBoundary.specialize, all2_scalar]
+    have h3 : ¬ ys.length = 3 := by omega
+    have hrd : rd xs (ys.length - 4) = .ok (xs[xs.length - 4]) := by
+      have e : ys.length - 4 = xs.length - 4 := by rw [hy]
+      rw [e]; exact rd_eq xs _ (by omega)
+    by_cases hends : ys[0]'(by omega) = ys[xs.length - 1]'(by omega)
+    · have : Cmp.eq (endsOf xs ys hy (by omega)).y0 (endsOf xs ys hy (by omega)).yl1 = true :=
+        (cmp_eq _ _).mpr hends
+      simp only [this, Bool.not_true, Bool.false_eq_true, if_false, h3, hrd, if_pos hends]
+    · have : Cmp.eq (endsOf xs ys hy (by omega)).y0 (endsOf xs ys hy (by omega)).yl1 = false :=
+        (cmp_eq_false _ _).mpr hends
+      simp only [this, Bool.not_false, if_true, if_neg hends, throw, throwThe, MonadExceptOf.throw]
+  constructor
+  · intro h; rw [hsolve, if_neg h]
+  · intro hends
+    obtain ⟨ks, hk, hper, hint, hkl, hrow0⟩ := periodic_spec xs ys hy hn hs
+    refine ⟨ks, hk, by rw [hsolve, if_pos hends]; exact hper, ?_, ?_, ?_⟩
+    · intro j h
+      unfold pc
+      exact (c2_iff_row _ _ _ _ _ _ _ _ _ (hne j (j + 1) (by omega) (by omega))
+        (hne (j + 1) (j + 2) (by omega) h)).mpr (hint j h)
+    · unfold pc
+      rw [piece_d1_right _ _ _ _ _ _ (hne (xs.length - 2) (xs.length - 1) (by omega) (by omega)),
+        piece_d1_left]
+      exact hkl
+    · unfold pc
+      rw [piece_d2_right _ _ _ _ _ _ (hne (xs.length - 2) (xs.length - 1) (by omega) (by omega)),
+        piece_d2_left _ _ _ _ _ _ (hne 0 1 (by omega) (by omega)), hkl, ← hends]
+      have n0 := hne 0 1 (by omega) (by omega)
+      have n1 := hne (xs.length - 2) (xs.length - 1) (by omega) (by omega)
+      rw [← hends] at hrow0
+      field_simp at hrow0 ⊢
+      linear_combination hrow0
+
+end periodic
 
 /-- **C03_defect_witness**: on the knots `3, 4, 8` with the cubic `x³` (`y = x³`, slopes `3x²`,
     so the interior row holds and both pieces are `x³`: equal third derivatives) the row the
